@@ -13,10 +13,18 @@ RULE = ('seeded random histories over 1-4 declared ResourceMaps and 1-7 handles:
         'assignment was executed and a dump showed a node below the root.  Thorough tier: additionally every '
         'history of length <= 3 over 2 names, keys of depth <= 2, 2 handles + 1 map, layer, clear (small-scope '
         'exhaustive).')
+RULE += ('  Object dimension: user subclasses of Handle / ResourceMap with value semantics (distinct objects that '
+         'compare equal and hash alike, compare equal and are unhashable, are falsy).  Key dimension: maps whose '
+         'delimiter is not "/" (subclass attribute or instance attribute), then with names that contain "/".')
 ASSUMPTIONS = ['values inserted more than once (aliasing, cycles) are generated for the model/code '
                'correspondence; the theorems and the back-link clauses of the oracle cover values that are '
                'inserted at most once (hypothesis Fresh)',
                'loaders do not touch the tree (loaders that raise are scripted: `newhandle h fail=i,j`)',
+               'value-equal MAPS are generated only in histories without aliasing: ResourceMap.clear() tests '
+               '`child.parent == self`, so with two equal maps sharing a child it detaches the other map\'s child '
+               '(witness reported); names containing "/" are used only directly under declared maps: the maps '
+               '__setitem__ creates are plain ResourceMaps with the "/" delimiter, so m["a|t/g"] works where '
+               'm["a"]["t/g"] raises KeyError (witness reported)',
                'assertions are enabled (without them the unchanged __setitem__ does not refuse a non-resource value)']
 TIE = ('hand-written heap model lean/DesperModel/Tree.lean, correspondence-checked against '
        'desper/model/tree.py on every run (differential run on generated histories, all observables of '
